@@ -808,10 +808,23 @@ int atoi(const char *s)
 	return v;
 }
 
+int g_rd_beg, g_rd_end, g_rd_fd, g_rd_ret;
 int lbuf_rd(struct lbuf *lb, int fd, int beg, int end)
 {
 	B.rd_calls = B.rd_calls < 100 ? B.rd_calls + 1 : 100;
+#ifdef UNIT_EC_READ
+	/* lbuf_rd as proved in unit lbuf.lbuf_rd: on a read error nothing is spliced; on success the stream replaces lines beg..end-1 */
+	g_rd_beg = beg; g_rd_end = end; g_rd_fd = fd;
+	g_rd_ret = nondet_bool();
+	if (!g_rd_ret) {
+		int ins = nondet_int();
+		__CPROVER_assume(0 <= ins && ins <= 0x100000 && g_len <= 0x1000000);
+		g_len = g_len - (end - beg) + ins;
+	}
+	return g_rd_ret;
+#else
 	return nondet_bool();
+#endif
 }
 
 void h_ec_buffer(void)
@@ -1710,6 +1723,51 @@ void h_bufs_shift(void)
 	H_ASSERT(xrow == g_old[1].row && xoff == g_old[1].off && xtop == g_old[1].top && xleft == g_old[1].left && xtd == g_old[1].td, "bufs_shift: cursor and window of the buffer that becomes current are restored");
 	H_ASSERT(bufs_cnt == cnt0, "bufs_shift: the id counter is not wound back (ids handed out later stay distinct from those of open buffers)");
 	H_ASSERT(B.mod_calls == 0 && B.saved_calls == 0 && B.rd_calls == 0, "bufs_shift: no other buffer's dirty state or text is consulted or changed");
+#ifdef CANARY
+	__CPROVER_assert(0, "canary");
+#endif
+}
+
+
+/* ================================================================== ec_read: ":r file" (C01 read side, C06) */
+int ec_read_frame_contract(char *loc, char *cmd, char *arg, char *txt)
+__CPROVER_requires(loc != 0 && cmd != 0 && arg != 0)
+__CPROVER_assigns(E, B, X, S, GW, g_rd_beg, g_rd_end, g_rd_fd, g_rd_ret, loc[0], loc[1], __CPROVER_object_whole(bufs), xrow, xoff, g_len)
+;
+void h_ec_read(void)
+{
+	char loc[2], cmd[19], arg[2];
+	char pathbuf[2];
+	GHOST_INIT();
+	FILE_ENV_HAVOC();
+	BUFS_HAVOC();
+	LINE_ENV_HAVOC();
+	CMD_HAVOC(cmd);
+	loc[0] = nondet_char(); loc[1] = 0;
+	arg[0] = nondet_char(); arg[1] = 0;
+	pathbuf[0] = nondet_char(); pathbuf[1] = 0;
+	B.pathexp_ret = nondet_bool() ? pathbuf : (char *) 0;
+	__CPROVER_assume(bufs[0].lb != 0);
+	char *path = arg[0] ? B.pathexp_ret : bufs[0].path;
+	int len0 = g_len, row0 = xrow;
+	int rb = B.region_beg, re = B.region_end, rr = B.region_ret;
+	g_rd_beg = g_rd_end = -7;
+	int ret = ec_read(loc, cmd, arg, 0);
+	if (rr || !path) {
+		H_ASSERT(ret == 1 && B.rd_calls == 0 && X.calls == 0 && g_len == len0, "ec_read: an address that does not resolve or a path that does not expand is rejected with the buffer unchanged");
+	} else if (path[0] == '!') {
+		H_ASSERT(B.rd_calls == 0 && g_open_calls == 0, "ec_read: ':r !cmd' reads a command, never a file");
+	} else if (!g_open_ok) {
+		H_ASSERT(ret == 1 && B.rd_calls == 0 && g_len == len0, "ec_read: a file that cannot be opened fails the command, buffer unchanged");
+	} else {
+		int pos = len0 ? re : 0;
+		H_ASSERT(B.rd_calls == 1 && g_rd_fd == g_open_fd && g_rd_beg == pos && g_rd_end == pos, "ec_read: the file is read in after the last addressed line (at the top of an empty buffer), replacing nothing");
+		H_ASSERT(g_close_calls == 1, "ec_read: the file is closed, also after a failed read");
+		if (g_rd_ret)
+			H_ASSERT(ret == 1 && g_len == len0, "ec_read: a read error fails the command with the buffer unchanged");
+		else
+			H_ASSERT(ret == 0 && xrow == re + (g_len - len0) - 1, "ec_read: the current line becomes the last line read");
+	}
 #ifdef CANARY
 	__CPROVER_assert(0, "canary");
 #endif
